@@ -694,7 +694,10 @@ def sequool_hooks():
         if nd is root:
             if not S["exhausted"]:
                 S["exhausted"] = True
-                S["rec_at_exhaustion"] = None
+                try:        # the recommendation at the moment the schedule is exhausted (before any further reward)
+                    S["rec_at_exhaustion"] = list(a.get_last_point())
+                except Exception:
+                    S["rec_at_exhaustion"] = None
             return
         if S["exhausted"]:
             case.fail("C12", "search-after-exhaustion", "a search cell is handed out after the schedule was exhausted", step=t, algo=name)
@@ -734,7 +737,7 @@ def sequool_hooks():
                 q = None
             if S["rec_at_exhaustion"] is None:
                 S["rec_at_exhaustion"] = q
-            elif q is not S["rec_at_exhaustion"] and q != S["rec_at_exhaustion"]:
+            elif q is None or list(q) != list(S["rec_at_exhaustion"]):
                 case.fail("C12", "recommendation-changed-after-exhaustion", f"{S['rec_at_exhaustion']} -> {q}", step=t, algo=name)
 
     def at_end(ctx):
